@@ -95,8 +95,28 @@ func novars(p *prog) *prog {
 	return p
 }
 
+// several entry templates of one Set that share an included partial: what one execution resolved
+// (a block of its includer, found up the scope chain) is nobody else's business
+func sharedPartialProg(r *h.Rand) (*prog, []string) {
+	p := newProg(r)
+	p.esc = "html"
+	a, b := r.Pick([]string{"A", "<a>"}), r.Pick([]string{"B", "b&b"})
+	p.files["/part.jet"] = `{{block own()}}o{{end}}[{{yield shared()}}]`
+	p.files["/plain.jet"] = `({{yield shared()}})`
+	p.files["/incA.jet"] = `{{block shared()}}` + a + `{{end}}{{include "/part.jet"}}{{include "/plain.jet"}}`
+	p.files["/incB.jet"] = `{{block shared()}}` + b + `{{end}}{{include "/part.jet"}}{{include "/plain.jet"}}`
+	p.files["/incC.jet"] = `c{{try}}{{include "/part.jet"}}{{catch}}unresolved{{end}}`
+	p.files["/main.jet"] = `{{include "/incB.jet"}}|{{include "/incA.jet"}}|{{include "/incC.jet"}}|{{include "/incB.jet"}}`
+	p.tags["shared-partial"] = true
+	return p, []string{"/incB.jet", "/incA.jet", "/incC.jet", "/incB.jet", "/main.jet", "/incC.jet"}
+}
+
 func execCmdOf(p *prog, store *sx.Sexp) *sx.Sexp {
-	return sx.L(sx.A("exec"), store, sx.S(p.entry),
+	return execCmdOfEntry(p, store, p.entry)
+}
+
+func execCmdOfEntry(p *prog, store *sx.Sexp, entry string) *sx.Sexp {
+	return sx.L(sx.A("exec"), store, sx.S(entry),
 		sx.L(sx.A("exts"), sx.S(""), sx.S(".jet"), sx.S(".html.jet"), sx.S(".jet.html")),
 		sx.A(p.esc), p.globals, p.vars, p.data, sx.I(400))
 }
@@ -119,6 +139,12 @@ func genHistory(r *h.Rand) h.Case {
 			progs = append(progs, genProgram(r, r.Pick([]string{"errors", "try", "include", "scope", "blocks", "control"})))
 		}
 	}
+	entriesOf := map[int][]string{}
+	if r.Chance(30) {
+		sp, es := sharedPartialProg(r)
+		entriesOf[len(progs)] = es
+		progs = append(progs, sp)
+	}
 	// at least one probe, executed again after everything else
 	progs = append(progs, probes[r.Intn(len(probes))])
 	var order []int
@@ -128,6 +154,19 @@ func genHistory(r *h.Rand) h.Case {
 	}
 	order = append([]int{len(progs) - 1}, order...)
 	order = append(order, len(progs)-1, r.Intn(len(progs)))
+	// a program with several entries is called through them in turn (so each entry recurs)
+	entryAt := make([]string, len(order))
+	for k, es := range entriesOf {
+		order = append(order, k, k, k, k)
+		entryAt = append(entryAt, "", "", "", "")
+		n := 0
+		for i, o := range order {
+			if o == k {
+				entryAt[i] = es[n%len(es)]
+				n++
+			}
+		}
+	}
 	meta := sx.L(sx.A("hist"))
 	tags := map[string]bool{}
 	for _, p := range progs {
@@ -146,8 +185,12 @@ func genHistory(r *h.Rand) h.Case {
 		Prep: sx.L(sx.A("dump-stores")),
 		Finish: func(stores *sx.Sexp) *sx.Sexp {
 			c := sx.L(sx.A("history"))
-			for _, k := range order {
-				c.Add(sx.L(sx.A("call"), sx.I(int64(k)), execCmdOf(ps[k], stores.Xs[k+1])))
+			for i, k := range order {
+				if entryAt[i] != "" {
+					c.Add(sx.L(sx.A("call"), sx.I(int64(k)), execCmdOfEntry(ps[k], stores.Xs[k+1], entryAt[i])))
+				} else {
+					c.Add(sx.L(sx.A("call"), sx.I(int64(k)), execCmdOf(ps[k], stores.Xs[k+1])))
+				}
 			}
 			return c
 		},
@@ -197,7 +240,7 @@ func init() {
 		prepared := map[int64]*preparedExec{}
 		pathsOf := map[int64][]string{}
 		before := map[int64]string{}
-		seen := map[int64]string{}
+		seen := map[string]string{}
 		oracle := ""
 		out := sx.L(sx.A("results"))
 		for ci, call := range cmd.Xs[1:] {
@@ -211,6 +254,13 @@ func init() {
 				pathsOf[k] = paths
 				before[k] = dumpAll(pe.set, paths)
 			}
+			// the entry template of this call (a Set serves several)
+			entry := string(ec.Xs[2].B)
+			if t, err := pe.set.GetTemplate(entry); err == nil {
+				pe.t = t
+			} else {
+				pe.t = nil
+			}
 			if (ci*7+int(k)*3)%4 == 1 {
 				// an execution of the same program whose writer gives up part-way (a closed connection):
 				// whatever it leaves behind must not show in any later execution
@@ -221,10 +271,11 @@ func init() {
 				oracle = fmt.Sprintf("call %d (program %d): %s", ci, k, perr)
 			}
 			rs := addrRe.ReplaceAllString(res.String(), "PTR")
-			if prev, dup := seen[k]; dup && prev != rs && oracle == "" {
-				oracle = fmt.Sprintf("call %d (program %d) returned %s, the same call earlier in the history returned %s", ci, k, clipS(rs), clipS(prev))
+			key := fmt.Sprintf("%d %s", k, entry)
+			if prev, dup := seen[key]; dup && prev != rs && oracle == "" {
+				oracle = fmt.Sprintf("call %d (program %d, entry %s) returned %s, the same call earlier in the history returned %s", ci, k, entry, clipS(rs), clipS(prev))
 			}
-			seen[k] = rs
+			seen[key] = rs
 			out.Add(res)
 		}
 		for k, pe := range prepared {
